@@ -1468,6 +1468,9 @@ def _validate_put_seq(
     if check_target:
         ctx = getattr(ast, 'ctx', None)
 
+        if ctx.__class__ is Del:  # no Starred in a Delete target, also not nested in Tuple or List
+            check_target = is_valid_del_target
+
         if ctx.__class__ is not Load and not check_target(ast_.elts):
             raise NodeError(f'invalid slice for {ast.__class__.__name__}'
                             f'{f" {ctx.__class__.__name__}" if ctx else ""} target')
